@@ -48,6 +48,7 @@ PROPS["C15"] = dict(
         "parser end: coq/C15/ParserSource.v transcribes the control flow of sophia_rio's StrictRio{Triple,Quad}Source::try_for_some_item and of rio_turtle 0.8.6 N{Triples,Quads}Parser::parse_step / parse_{triple,quad}_line / is_end / LookAheadByteReader::new (one line per step, synthetic first line, error position = current line, consume_line_end) by hand; the reading of the terms of ONE line is not transcribed from rio: it is the reference reader of coq/C03/Model.v (W3C grammar), and every theorem holds for an arbitrary line reader; agreement with rio on the generated documents is what the correspondence run checks",
         "serializer end: coq/C15/SerializerSink.v transcribes write_term / write_triple / quoted_string of turtle/src/serializer/nt.rs and the closures of serialize_triples / serialize_quads as the sequence of buffers passed to write_all, std::io::Write::write_all (without ErrorKind::Interrupted retries) and an io::Write probe driven by a policy (bytes accepted per call); SerializerProofs.stmt_chunks_concat ties the buffers to C03's byte-level writer",
         "the capacity-limited store is a consumer whose failure is a sink error value",
+        "coq/C15/Bulk.v: the provided bulk methods (insert_all, remove_all, remove_matching, retain_matching, add_to_graph/add_to_dataset) on journaling set/bag stores reached directly and through adapters (GraphAsDataset, DatasetGraph, &mut), and serializers over writers failing in write and/or flush combined with a failing source (first-failure rule)",
     ],
     assumptions=["closures given to adapters are pure functions of the item (the harness uses such closures)",
                  "documents are valid UTF-8 (the parser is fed from &str / String bytes); ErrorKind::Interrupted is not modelled for writers"],
@@ -89,9 +90,9 @@ PROPS["C10"] = dict(
     quick=dict(n=400, shards=16),
     thorough=dict(n=20000, shards=128, run_timeout=3000, coq_case_timeout=3000),
     trusted_base=[
-        "ownership model coq/C10/Model.v of inmem/src/index.rs (SimpleTermIndex: t2i keys own string allocations, i2t entries point into them or, for quoted triples, own deep copies), of Clone (derived vs rebuilt), Drop, moves and growth (hand-written)",
-        "hook SimpleTermIndex::verif_audit / verif_term_index (cfg sophia_verif) reports, per index, whether i2t[i] borrows from the key mapped to i; the harness compares it with the model's audit",
-        "hook SimpleTermIndex::verif_strings (cfg sophia_verif) reports address, length and ownership of every string of the keys and of the index table; the harness checks after every step that every key owns its strings, that the key strings of two live stores never overlap and that every borrowed table string lies inside a key of the same store; it also calls get_term with indices that were never handed out (must panic)",
+        "ownership model coq/C10/Model.v of inmem/src/index.rs with three designs under clone_mode: Owned = the current code after /repo 20c1ef6 (t2i keys and i2t entries each own their strings; Clone copies both), Rebuilt = the previous code (i2t entries pointed into the keys, Clone rebuilt them), Derived = the original derived Clone; Drop, moves, growth, bulk constructors, clone_from, mem::take/replace/swap and terms cloned OUT of a store (escaped_clone_safe; the old designs are refuted: derived_clone_refuted, term_clone_escapes_refuted) (hand-written)",
+        "hook SimpleTermIndex::verif_audit / verif_term_index (cfg sophia_verif) reports, per index, whether i2t[i] holds the term of the key mapped to i (an owned copy with the same text, or a borrow of that very key); the harness compares it with the model's audit",
+        "hook SimpleTermIndex::verif_strings (cfg sophia_verif) reports address, length and ownership of every string of the keys and of the index table; the harness checks after every step that every key and every table entry owns its strings, that these allocations are pairwise disjoint inside a store and between live stores (clones included), and that terms cloned out of a store own their text; it also calls get_term with indices that were never handed out (must panic)",
         "thorough tier additionally runs fixed clone/drop/insert scenarios under Miri (harness/src/bin/c10_miri.rs) as a correspondence aid",
         "NOT covered: undefined behaviour outside this ownership model (std collections, unwrap_unchecked in the iterators, allocator behaviour); the model says which memory is read, a sanitizer would be needed to observe the read itself",
     ],
@@ -191,7 +192,7 @@ PROPS["C09"] = dict(
 )
 
 PROPS["C13"] = dict(
-    level="proof", coq_targets=["C13/Properties", "C13/ExprProperties"],
+    level="proof", coq_targets=["C13/Properties", "C13/ExprProperties", "C13/FuncProperties"],
     runs=[dict(bin="c13"), dict(bin="c13e", quick=dict(n=3000, shards=16), thorough=dict(n=120000, shards=128))],
     quick=dict(n=700, shards=16),
     thorough=dict(n=40000, shards=128, run_timeout=3000, coq_case_timeout=3000),
@@ -205,13 +206,19 @@ PROPS["C13"] = dict(
         "ExprModel.v: SPARQL 1.1 section 17 + the XSD lexical mappings written from the Recommendations from memory (no network)",
         "floats are abstract in the theorems (parameters of xlib); the model is RUN with Coq.Floats.SpecFloat at (24,128)/(53,1024), a shortest-round-trip printer and a correctly rounded reader, tied to Rust only by the generated cases",
         "decimal division = bigdecimal 0.4 impl_division (100 digits), transcribed; BigDecimal + - * by value; xsd:dateTime reader for ordinary forms only (chrono not modelled)",
+        "function layer (C13/FuncProperties.v): coq/C13/FuncModel.v is a hand transcription of function.rs call_function (all 52 arms: 34 implemented, 18 `todo()`), the EvalResult accessors as_string_lit / as_xsd_string / as_xsd_date_time, SparqlNumber::{abs,ceil,floor,round}, xpath_round and the FunctionCall arm of eval, after the fix: commits a02a275 (SUBSTR) and 5a72fb8 (CEIL/FLOOR/ROUND); the code as found is kept as sub_str0 / num_ceil0 / num_floor0 / num_round0 for the _refuted witnesses; coq/C13/FuncSpec.v is SPARQL 1.1 17.4.2-17.4.5 + XPath F&O + RFC 4647 3.3.1 written from memory",
+        "function layer: the methods of str that function.rs calls (chars, find, contains, starts_with, ends_with, eq_ignore_ascii_case) are modelled by their documented contract over code points, `find` returning the BYTE offset; the byte slices function.rs itself takes (&s[a..b]) are modelled exactly (panic off a character boundary); UTF-8 encoding by Common/Term.v utf8",
+        "function layer, abstract and shared by model and specification (record flib): Unicode's per-character case mappings (run with ASCII/Latin-1/Greek/Cyrillic/Deseret + special cases, the harness alphabet stays inside), f32/f64 ceil/floor/round (run on Coq.Floats.SpecFloat via exact integer arithmetic), IriRef::new (run with a forbidden-character/percent/first-segment check that is exact on the harness pool; the grammar is C09's), the civil fields of a dateTime (run with Hinnant's civil_from_days; chrono not modelled)",
+        "function layer: feval_correct assumes that the Rust helper xpath_round (f64::round corrected on negative halves with copysign) computes fn:round on doubles and, through f64, on floats; NOT discharged for the run-time instance (it would need IEEE addition lemmas), checked there on 51 boundary samples (xpath_round_samples) and on every generated ROUND / SUBSTR case",
+        "function layer: BNODE's fresh label and RAND's number are inputs of the model, read off the engine's answer; nested BNODE()/RAND() are only generated where the label / number cannot reach the result",
         "independent oracle in c13e.rs over i128 and native IEEE floats; it cannot tell on about 1 % of cases (i128 overflow, non-terminating decimal quotients, sameTerm/STR of a computed number)",
         "spargebra parsing trusted; expressions are generated fully parenthesised (spargebra 0.3.5 parses 2-3-4 as 2-(3-4))",
         "ORDER BY modelled as an arbitrary permutation (the order is C14)",
         "independent oracle in c13.rs: SPARQL 1.1 section 18 by nested loops plus a section 17 evaluator for the generated expression forms",
     ],
     assumptions=["the dataset is a set of quads (NoDup)", "64-bit isize", "sort_unstable_by returns a permutation",
-                 "expression layer: strings have fewer than 2^63 characters; a ResultTerm's cached value equals the value re-read from its term; the three operator extensions of sophia (= on distinct language-tagged strings is false, order of language-tagged strings, a valueless literal compared with itself) are admissible extensions in the sense of SPARQL 17.3.1; xsd:dateTime comparisons follow XSD 3.2.7.4 (no implicit timezone)"],
+                 "expression layer: strings have fewer than 2^63 characters; a ResultTerm's cached value equals the value re-read from its term; the three operator extensions of sophia (= on distinct language-tagged strings is false, order of language-tagged strings, a valueless literal compared with itself) are admissible extensions in the sense of SPARQL 17.3.1; xsd:dateTime comparisons follow XSD 3.2.7.4 (no implicit timezone)",
+                 "function layer: SUBSTR's numeric arguments are promoted to xs:double (fn:substring's parameter type); queries have no BASE; TRIPLE follows RDF 1.2 (no triple term as subject); fn:upper-case / fn:lower-case are context-free per-character mappings (no Final_Sigma); sophia's dialect (fd_sophia: IRI accepts relative references, langMatches raises an error on an empty or ill-formed tag) is a known finding each, not an extension"],
 )
 
 PROPS["C12"] = dict(
